@@ -921,6 +921,26 @@ func leaves2() []leaf2 {
 			return math.Max(dx, dy) <= 0, !(math.Abs(dx) <= 1e-9) && !(math.Abs(dy) <= 1e-9)
 		})
 	}
+	// the 2D triangle as a solid: proper ones against the edge-side test, degenerate ones (collinear corners, two or
+	// three equal corners - NewTriangle then works with a pseudo-inverse) on the bounds clause
+	for ti, tc := range [][3]c2{
+		{{X: 0, Y: 0}, {X: 2, Y: 0}, {X: 0, Y: 1}}, {{X: 0, Y: 0}, {X: 0, Y: 1}, {X: 2, Y: 0}}, {{X: -1, Y: 0.5}, {X: 3, Y: 0.75}, {X: 0.5, Y: -2}},
+		{{X: 0, Y: 0}, {X: 1e-3, Y: 4}, {X: 2e-3, Y: 0}},
+		{{X: 0, Y: 0}, {X: 1, Y: 0}, {X: 2, Y: 0}}, {{X: 0, Y: 0}, {X: 2, Y: 0}, {X: 1, Y: 0}}, {{X: -1, Y: -1}, {X: 1, Y: 1}, {X: 0.25, Y: 0.25}}, {{X: 0.5, Y: 1}, {X: 0.5, Y: -2}, {X: 0.5, Y: 3}},
+		{{X: 1, Y: 2}, {X: 1, Y: 2}, {X: 3, Y: -1}}, {{X: 1, Y: 2}, {X: 3, Y: -1}, {X: 3, Y: -1}}, {{X: 1, Y: 2}, {X: 1, Y: 2}, {X: 1, Y: 2}},
+	} {
+		tc := tc
+		var rf ref2
+		if ti < 4 {
+			rf = func(p c2) (bool, bool) {
+				side := func(a, b c2) float64 { return (b.X-a.X)*(p.Y-a.Y) - (b.Y-a.Y)*(p.X-a.X) }
+				s0, s1, s2 := side(tc[0], tc[1]), side(tc[1], tc[2]), side(tc[2], tc[0])
+				in := (s0 >= 0 && s1 >= 0 && s2 >= 0) || (s0 <= 0 && s1 <= 0 && s2 <= 0)
+				return in, !(math.Abs(s0) <= 1e-9) && !(math.Abs(s1) <= 1e-9) && !(math.Abs(s2) <= 1e-9)
+			}
+		}
+		add(fmt.Sprintf("2d.Triangle(%v)", tc), model2d.NewTriangle(tc[0], tc[1], tc[2]), rf)
+	}
 	pr := model2d.NewConvexPolytopeRect(model2d.XY(-1, 0.5), model2d.XY(0.5, 1))
 	add("2d.ConvexPolytopeRect.Solid", pr.Solid(), func(p c2) (bool, bool) { return pr.Contains(p), true })
 	tri := model2d.ConvexPolytope{{Normal: model2d.XY(-2, 0), Max: 0}, {Normal: model2d.XY(0, -1), Max: 0.5}, {Normal: model2d.XY(1, 3), Max: 4}}
